@@ -19,7 +19,8 @@ STEP_BOUND_BASE = 20
 STEP_BOUND_PER_OP = 15
 
 GUARDS = {1: "TIE", 2: "CONFINED", 3: "OUTSIDE", 4: "OTHER_SIDE", 5: "ORIGIN", 6: "COVERED_STEP", 7: "CONVERGE",
-          8: "SPEC", 9: "CONFLICTED", 10: "COVERED_QUIET", 11: "BOUND", 12: "ECHO", 13: "SPEC_OP", 14: "STEP_TREE"}
+          8: "SPEC", 9: "CONFLICTED", 10: "COVERED_QUIET", 11: "BOUND", 12: "ECHO", 13: "SPEC_OP", 14: "STEP_TREE",
+          15: "DECLINED"}
 
 
 class Interner:
@@ -66,6 +67,14 @@ class Interner:
 
     def conflicted(self, extra=()):
         return [i for s, i in self.names.items() if ".conflicted" in s or s in extra]
+
+    def declined(self, word):
+        """interned names the case's translate hook declines: it refuses a path containing "/" + word,
+        i.e. a path with a component that starts with the word"""
+        if not word:
+            return []
+        self.name(word)
+        return [i for s, i in self.names.items() if s.startswith(word)]
 
 
 def jsonable_case(case):
@@ -437,7 +446,8 @@ def run_case(case, monitor, storage_factory=None, hooks=None, extra_rounds=6, ke
         cfg = [it.path(fl.roots[0]), it.path(fl.roots[1]),
                [] if mode.get("origin") is None else [mode["origin"]],
                1 if mode.get("check_spec") else 0, 1 if mode.get("no_conflicted") else 0,
-               it.conflicted(case.get("ignore_names", ())), bound, 1 if mode.get("cov_every_step") else 0]
+               it.conflicted(case.get("ignore_names", ())), bound, 1 if mode.get("cov_every_step") else 0,
+               it.declined(case.get("decline"))]
         res.request = [0, cfg, init[0], init[1], obs]
         res.verdict = monitor.call(res.request)
         if res.stuck and res.verdict == []:
